@@ -111,6 +111,11 @@ class C17(Prop):
         for s, v in [("1.5", 1.5), ("-2", -2.0), ("x", None), ("", None), ("1e3", 1000.0), (".5", 0.5), ("010", 10.0), 
                      ("inf", float("inf")), ("-Inf", float("-inf")), ("1e400", None), (" 1", None), ("5.", 5.0), ("0x1p-2", 0.25), ("1e", None), ("+.5e1", 5.0)]:
             out.append(case("return float(%s);" % lit(s), enc_value(v), "float"))
+        # a value that is not a number lies in no interval: between agrees with the language's own <= there too
+        for src in ['v = float("nan"); return between(v, 1, 2);', 'v = float("NaN"); return between(v, 0 - 5, 5.5);', 'v = float("nan"); return between(1, v, 2);',
+                    'v = float("nan"); return between(1, 0, v);', 'v = float("nan"); return (1 <= v && v <= 2);', 'v = float("nan"); return between(v, v, v);']:
+            out.append(case(src, "b0", "between-nan"))
+        out.append(case('v = float("inf"); return [between(v, 1, 2), between(5, 1, v), between(v, v, v)];', enc_value([False, True, True]), "between-nan"))
         out.append(case("return int(3);", "i3", "int"))
         out.append(case("return float(3);", enc_value(3.0), "float"))
         # match: any line, trimmed
